@@ -1,17 +1,7 @@
 #!/bin/bash
-# usage: try_seed.sh <PROP> <seeddir> [worktree]   -- verify a seeded change and run the checks against it
-P=$1; S=$2; W=${3:-/tmp/wt_$P}
-set -u
-echo "== demo WITH change (expect non-zero)"
-( cd $W && git checkout -q -- . && git apply $S/patch.diff && PYTHONPATH=$W timeout 1200 /venv/bin/python $S/demo.py >/tmp/demo_with.log 2>&1; echo "rc=$?"; tail -2 /tmp/demo_with.log )
-echo "== demo WITHOUT change (expect 0)"
-( cd $W && git checkout -q -- . && PYTHONPATH=$W timeout 1200 /venv/bin/python $S/demo.py >/tmp/demo_without.log 2>&1; echo "rc=$?"; tail -2 /tmp/demo_without.log )
-echo "== checks on /repo with the change applied"
-git -C /repo apply $S/patch.diff || { echo "patch does not apply to /repo"; exit 3; }
-cd /verif
-for c in $(ls sa/checks/c[0-9][0-9].py | sed 's/.*\/c\([0-9]*\).py/C\1/'); do
-  out=$(VERIF_EVIDENCE_DIR=/tmp/seed_evidence /venv/bin/python -m sa.check $c 2>&1); rc=$?
-  if [ $rc -ne 0 ]; then echo "--- $c rc=$rc"; echo "$out" | grep -v "^VIOLATION" | head -8; fi
-done
-git -C /repo checkout -- .
-git -C /repo status --short | head -3
+# usage: try_seed.sh <dir with patch.diff>  -- apply the patch to a scratch copy and print the checks that are not silent
+d=$1; t=$(mktemp -d /tmp/tryseed_XXXX)
+git -C /repo archive HEAD moptipyapps examples | tar -x -C $t
+(cd $t && git apply $d/patch.diff) || { echo "patch failed"; rm -rf $t; exit 1; }
+LINES_MAX=${LINES_MAX:-6} /verif/tools/run_all.sh $t | grep -v " ok$"
+rm -rf $t
